@@ -45,7 +45,8 @@ def run(ctx):
     late = ("wb_new_ok", "rb_fail", "el_rec", "rb_fail", "el_err")
     plans = [(True, alphabet, depth, ()), (False, alphabet, depth, ()), (True, H.EV_SINGLE, 5 if ctx.quick else 6, ()),
              (True, H.EV_SINGLE + ("tick_fail",), 4 if ctx.quick else 5, late),
-             (True, H.EV_OUTSIDE, 5 if ctx.quick else 7, ())]
+             (True, H.EV_OUTSIDE, 5 if ctx.quick else 7, ()),
+             (True, H.EV_OUTSIDE2, 5 if ctx.quick else 7, ())]
     for connected, alphabet_, depth_, prefix_ in plans:
         def on_tr(hist, ev, nxt, connected=connected, prefix_=prefix_):
             rec = nxt.obs[-1]
@@ -61,13 +62,13 @@ def run(ctx):
         total["transitions"] += res.transitions
         complete = complete and True
         samples += [list(h) for h in res.histories[-3:]]
-        ctx.note(f"[C24] connected_at_init={connected} alphabet={'outside-the-batch' if alphabet_ == H.EV_OUTSIDE else 'single-writes' if alphabet_[:3] == H.EV_SINGLE[:3] and len(alphabet_) <= len(H.EV_SINGLE) + 1 else 'cycles'} prefix={list(prefix_)} depth={depth_}: states={res.states} transitions={res.transitions} max_depth={res.max_depth} cut_at_bound={res.frontier_at_bound}")
+        ctx.note(f"[C24] connected_at_init={connected} alphabet={'outside-the-batch' if alphabet_ in (H.EV_OUTSIDE, H.EV_OUTSIDE2) else 'single-writes' if alphabet_[:3] == H.EV_SINGLE[:3] and len(alphabet_) <= len(H.EV_SINGLE) + 1 else 'cycles'} prefix={list(prefix_)} depth={depth_}: states={res.states} transitions={res.transitions} max_depth={res.max_depth} cut_at_bound={res.frontier_at_bound}")
     ctx.coverage.update(
         evaluations=total["transitions"], states=total["states"], transitions=total["transitions"],
         distinct_nontrivial=len(stats["nontrivial"]), distinct_outcomes=len(stats["outcomes"]),
         rule="BFS over all event histories up to depth over the alphabet; canonical states deduplicated; "
              "non-trivial = a state reached by an event that wrote to the hardware after an earlier failed write",
-        samples=samples, depth=depth, alphabet=list(alphabet), second_alphabet=list(H.EV_SINGLE), second_depth=plans[2][2], third_alphabet=list(H.EV_OUTSIDE), third_depth=plans[4][2], exhaustive=True,
+        samples=samples, depth=depth, alphabet=list(alphabet), second_alphabet=list(H.EV_SINGLE), second_depth=plans[2][2], third_alphabet=list(H.EV_OUTSIDE), third_depth=plans[4][2], fourth_alphabet=list(H.EV_OUTSIDE2), exhaustive=True,
         explanation="exhaustive up to the depth bound: every event applied in every canonical state of depth < bound",
     )
     ctx.assumptions += ["values are compared only for equality by the decorator (order-preserving renaming in canon)",
